@@ -505,3 +505,67 @@ func classifyPlain(info *types.Info, st *ast.ReturnStmt) string {
 	}
 	return "success"
 }
+
+// SuccessPath returns the nodes executed on the unique path on which every error test is false (the error is nil).
+// A condition that is not a nil test of an error-typed variable makes the success path non-linear: ok=false and the
+// offending condition is returned.
+func (g *Graph) SuccessPath() (nodes []ast.Node, offending ast.Node, ok bool) {
+	b := g.Entry()
+	seen := map[*cfg.Block]bool{}
+	for b != nil {
+		if seen[b] {
+			return nodes, nil, false
+		}
+		seen[b] = true
+		n := len(b.Nodes)
+		if len(b.Succs) == 2 && n > 0 {
+			cond, isExpr := b.Nodes[n-1].(ast.Expr)
+			if !isExpr {
+				return nodes, b.Nodes[n-1], false
+			}
+			nodes = append(nodes, b.Nodes[:n-1]...)
+			edge := g.cleanEdge(cond)
+			if edge < 0 {
+				return nodes, cond, false
+			}
+			b = b.Succs[edge]
+			continue
+		}
+		nodes = append(nodes, b.Nodes...)
+		if len(b.Succs) == 0 {
+			return nodes, nil, true
+		}
+		if len(b.Succs) == 1 {
+			b = b.Succs[0]
+			continue
+		}
+		return nodes, nil, false
+	}
+	return nodes, nil, true
+}
+
+// cleanEdge returns the successor index taken when the tested error is nil, or -1 if cond is not a plain nil test of an
+// error variable.
+func (g *Graph) cleanEdge(cond ast.Expr) int {
+	b, ok := ast.Unparen(cond).(*ast.BinaryExpr)
+	if !ok || (b.Op != token.NEQ && b.Op != token.EQL) {
+		return -1
+	}
+	var x ast.Expr
+	switch {
+	case isNilIdent(g.Info, b.Y):
+		x = b.X
+	case isNilIdent(g.Info, b.X):
+		x = b.Y
+	default:
+		return -1
+	}
+	tv, ok := g.Info.Types[x]
+	if !ok || !isErrorType(tv.Type) {
+		return -1
+	}
+	if b.Op == token.NEQ {
+		return 1
+	}
+	return 0
+}
